@@ -66,7 +66,7 @@ def registry():
                      step=lambda f, q, g, a, m: f.update(q, g, a), g_ref=Z(gz), m_ref=mr))
         R.append(Rec('EKF', 'MARG', 'EKF', [dict(frame=frame, magnetic_ref=60.0), dict(frame=frame, magnetic_ref=60.0, frequency=50.0, noises=[0.1**2, 0.3**2, 0.5**2])], True,
                      frame=frame, step=lambda f, q, g, a, m: f.update(q, g, a, m), g_ref=Z(gz), m_ref=mr))
-    R.append(Rec('UKF', 'IMU', 'UKF', [dict(), dict(frequency=50.0, alpha=1e-2, P=np.eye(4) * 0.05)], False,
+    R.append(Rec('UKF', 'IMU', 'UKF', [dict(), dict(frequency=50.0, alpha=1e-2)], False,
                  step=lambda f, q, g, a, m: f.update(q, g, a), g_ref=Z(1.0), m_ref=Mned))
     aq_args = lambda g, a, m: dict(gyr=g, acc=a, mag=m) if m is not None else dict(gyr=g, acc=a)
     R.append(Rec('AQUA', 'IMU', 'AQUA', [dict(), dict(adaptive=True, alpha=0.05, frequency=50.0)], False, conj=True, batch_args=aq_args,
